@@ -352,6 +352,11 @@ func (w *World) hookYield(site string, args ...any) {
 		w.mu.Unlock()
 		if delay > 0 {
 			w.H.Fire("hold:" + site)
+			if name, _ := args[0].(string); strings.HasPrefix(name, "inhibit.") {
+				// oracles that read the API right after a submission need to know that the
+				// inhibitor was being held back
+				w.H.AddEvent("auto-hold", "", fmt.Sprintf("%s %d", name, int64(delay)))
+			}
 			// released early when an instance is asked to stop or reload: a graceful
 			// stop waits for its background goroutines and must not take as long as a hold
 			select {
